@@ -74,6 +74,15 @@ def main(argv=None):
             except Exception:
                 pass
             return 1
+        if ctx.violations:
+            # a VIOLATION with its replay has already been reported; the later crash of the harness
+            # does not take it back
+            print(f"[{pid}] harness crashed after reporting {len(ctx.violations)} violation(s); verdict stands")
+            try:
+                ctx.finish()
+            except Exception:
+                pass
+            return 1
         print(f"INFRA-ERROR {pid}: harness crashed")
         return 2
 
